@@ -29,6 +29,9 @@ type Case struct {
 	// non-cacheable: then only "same verdict before and after" is required.
 	Conforming bool `json:"conforming"`
 	ReadMode   int  `json:"read_mode,omitempty"` // how the written file is handed to ReadExchange (gen.Source)
+	// UsedSigner: format version of an unrelated exchange that the SAME Signer object signed before
+	// ("" = fresh signer).
+	UsedSigner string `json:"used_signer,omitempty"`
 }
 
 const (
@@ -113,6 +116,10 @@ var prop = vh.Define("C02", "roundtrip", func(c Case, r *vh.R) {
 	s := &c.Spec
 	r.Class(s.Version)
 	e, _, err := sxgkit.Build(s)
+	if c.UsedSigner != "" {
+		e, _, err = sxgkit.BuildWithUsedSigner(s, c.UsedSigner)
+		r.Class("used-signer")
+	}
 	if err != nil {
 		r.Failf("sign-error", "library refused to sign a well-formed exchange: %v", err)
 		return
@@ -314,6 +321,9 @@ func TestPropRoundTrip(t *testing.T) {
 	prop.Rapid(t, func(t *rapid.T) Case {
 		s := sxgkit.GenSpec(t)
 		c := Case{Spec: *s, Conforming: true, ReadMode: gen.DrawSourceMode(t, "readmode")}
+		if rapid.IntRange(0, 3).Draw(t, "usedsigner") == 0 {
+			c.UsedSigner = rapid.SampledFrom([]string{"1b1", "1b2", "1b3"}).Draw(t, "priorversion")
+		}
 		switch rapid.IntRange(0, 9).Draw(t, "variant") {
 		case 0, 1:
 			c.Spec.ResHeaders = append(c.Spec.ResHeaders, variantHeaders(t)...)
